@@ -8,6 +8,7 @@ STUB_CLOCK = ["clock: time()/gettimeofday()/clock()/times() answered by the simu
 CHECKS = {
     "C02": dict(
         level="exploration",
+        required_probes=['observer_after_set_bin', 'observer_after_set_view', 'reopen_compared', 'non_native_byte_order', 'permuted_segment_sequence', 'tof_by_view', 'out_of_range_request', 'error_reported_after_fault'],
         parts=[dict(harness="chk_C02", variant="seq", src="checks/chk_C02.cpp",
                     runs=dict(quick=6000, thorough=300000), wall_cap=dict(quick=150, thorough=2400))],
         rule=("one case = one generated plan: geometry (detectors, rings, span, max ring difference, view mashing, tangential "
@@ -25,6 +26,7 @@ CHECKS = {
     ),
     "C18": dict(
         level="exploration",
+        required_probes=['thread_blocked_on_lock_or_critical', 'single_won_by_non_master', 'thread_received_no_chunk', 'park_event_fired_kind_1', 'park_event_fired_kind_2', 'strategy_1_sync', 'more_than_8_threads'],
         parts=[dict(harness="chk_C18", variant="omp", src="checks/chk_C18.cpp",
                     runs=dict(quick=8800, thorough=200000), wall_cap=dict(quick=170, thorough=2700))],
         rule=("one case = one generated plan: scenario (forward / back projection, objective function, lazy geometry tables, "
@@ -41,6 +43,7 @@ CHECKS = {
     ),
     "C06": dict(
         level="exploration",
+        required_probes=['complete_iteration_checked', 'partial_iteration_checked', 'randomised_run', 'randomised_restart_inside_iteration', 'partition_symclass_1', 'balanced_true_checked', 'balanced_false_checked'],
         parts=[dict(harness="chk_C06", variant="seq", src="checks/chk_C06.cpp",
                     runs=dict(quick=8000, thorough=400000), wall_cap=dict(quick=150, thorough=2400))],
         rule=("one case = one generated plan of one of three kinds: (schedule) a real OSMAPOSL or OSSPS reconstruct() loop on a tiny "
@@ -58,6 +61,7 @@ CHECKS = {
     ),
     "C03": dict(
         level="exploration",
+        required_probes=['nonempty_rows_compared', 'cache_mode_switch', 'symmetry_toggle_and_set_up', 'resetup_geo_1', 'thread_blocked_on_lock_or_critical'],
         parts=[dict(harness="chk_C03", variant="seq", src="checks/chk_C03.cpp",
                     runs=dict(quick=1600, thorough=150000), wall_cap=dict(quick=110, thorough=1800)),
                dict(harness="chk_C03", variant="omp", src="checks/chk_C03.cpp",
@@ -77,6 +81,7 @@ CHECKS = {
     ),
     "C10": dict(
         level="fault_enumeration",
+        required_probes=['crash_debris_rejected', 'read_error_reported', 'type_1', 'type_9'],
         parts=[dict(harness="chk_C10", variant="seq", src="checks/chk_C10.cpp",
                     runs=dict(quick=320, thorough=80000), wall_cap=dict(quick=160, thorough=2400))],
         rule=("one case = one generated image (index ranges with negative minima, sizes 1..12, origin, voxel sizes, six value "
@@ -97,6 +102,7 @@ CHECKS = {
     ),
     "C07": dict(
         level="exploration",
+        required_probes=['em_update_checked', 'map_additive_checked', 'resumed_iterate_bitwise_equal', 'restart_from_saved_iterate', 'restart_rejected_damaged_iterate', 'resume_same_object_checked', 'resume_reuse_checked', 'positivity_with_filter_checked'],
         parts=[dict(harness="chk_C07", variant="seq", src="checks/chk_C07.cpp",
                     runs=dict(quick=4000, thorough=80000), wall_cap=dict(quick=150, thorough=2400))],
         rule=("one case = generated small problem (scanner, image, Poisson-like data, additive term on/off, bin efficiencies on/off, symmetries on/off, number of "
@@ -116,6 +122,7 @@ CHECKS = {
     ),
     "C08": dict(
         level="exploration",
+        required_probes=['ossps_update_checked', 'resumed_iterate_bitwise_equal', 'restart_from_saved_iterate', 'resume_same_object_checked'],
         parts=[dict(harness="chk_C08", variant="seq", src="checks/chk_C08.cpp",
                     runs=dict(quick=4000, thorough=80000), wall_cap=dict(quick=150, thorough=2400))],
         rule=("as C07 with OSSPS: generated problem, relaxation (alpha, gamma), upper bound, quadratic prior on/off with penalisation "
@@ -132,12 +139,15 @@ CHECKS = {
     ),
     "C17": dict(
         level="fault_enumeration",
+        required_probes=['round_trip_fixed_point', 'damaged_text_accepted_consistent', 'damaged_text_rejected', 'damaged_header_rejected', 'damaged_header_accepted_consistent', 'non_default_object_round_trip', 'keyparser_rules_checked', 'case_whitespace_variant_checked'],
         parts=[dict(harness="chk_C17", variant="seq", src="checks/chk_C17.cpp", extra_rt=["simalloc"],
-                    runs=dict(quick=320, thorough=48000), wall_cap=dict(quick=170, thorough=2400))],
+                    runs=dict(quick=640, thorough=48000), wall_cap=dict(quick=170, thorough=2400))],
         rule=("one case = one text or header and one fault class whose positions are enumerated completely: (registry) the parameter "
-              "text a default-constructed object of each registered class of 10 registries prints for itself -> round trip fixed point, "
-              "case/white-space variants, end of input after every byte, read error (badbit) mid-stream, one flipped bit at every byte, "
-              "every line lost / duplicated; (keyparser) generated texts for a parser with scalar, aliased and vectorised keys; "
+              "text a default-constructed object of each registered class of 10 registries prints for itself (object made through the "
+              "registry's ask_parameters path in a guarded child process) -> round trip fixed point, case/white-space variants, end of "
+              "input after every byte, read error (badbit) mid-stream, one flipped bit at every byte, every line lost / duplicated, every "
+              "vectorised index replaced by 0 / negative / huge / next, every free-text key given a value (one at a time and all together: "
+              "fixed point and value still printed); (keyparser) generated texts for a parser with scalar, aliased and vectorised keys; "
               "(interfile) image and projection-data headers written by the library -> truncated at every byte, one flipped bit at every "
               "byte, every line lost / duplicated, list-valued lines with an entry lost / gained, data file shorter / longer.  "
               "Non-trivial: every case; distinct = event-log hash."),
@@ -148,11 +158,12 @@ CHECKS = {
         assumptions=["'internally consistent object' is operationalised as: the text it prints for itself re-parses to the same text; for "
                      "projection data: every segment it announces can be read or reading reports an error, and what was read fits in the file",
                      "coverage-guided byte-level fuzzing (also named in the property's quantifier) is a different technique and not part of this check",
-                     "classes that cannot be default-constructed and parsed without external data are skipped (counted by a probe)"],
+                     "classes whose interactive ask_parameters() cannot finish at end-of-input (nested type prompts) or needs external data are skipped (probe class_needs_external_data; about 22 of 41 classes are usable)", "parameter texts are compared modulo empty lines and trailing blanks; after damaged input one normalising re-parse is allowed before the text has to be stable"],
         distinct_by_hash=True,
     ),
     "C16": dict(
         level="exploration",
+        required_probes=['nonzero_output_compared', 'energy_window_changed', 'template_changed', 'density_changed', 'scatter_point_image_given', 'detector_pairs_exchanged', 'linearity_extreme_scales_checked', 'cache_switched'],
         parts=[dict(harness="chk_C16", variant="seq", src="checks/chk_C16.cpp",
                     runs=dict(quick=640, thorough=60000), wall_cap=dict(quick=120, thorough=2400)),
                dict(harness="chk_C16", variant="omp", src="checks/chk_C16.cpp",
@@ -179,6 +190,7 @@ CHECKS = {
     ),
     "C05": dict(
         level="exploration",
+        required_probes=['checked_value', 'checked_grad', 'checked_sens', 'checked_hess', 'first_use_compared', 'repeated_request_compared', 'set_up_again', 'num_subsets_changed'],
         parts=[dict(harness="chk_C05", variant="seq", src="checks/chk_C05.cpp",
                     runs=dict(quick=4000, thorough=160000), wall_cap=dict(quick=110, thorough=2400)),
                dict(harness="chk_C05", variant="omp", src="checks/chk_C05.cpp",
@@ -204,6 +216,7 @@ CHECKS = {
     ),
     "C14": dict(
         level="exploration",
+        required_probes=['multi_pass_rewind', 'frame_boundary_on_time_mark', 'multi_frame_run_checked', 'cutoff_reached', 'lm_vs_projdata_compared', 'several_cache_files', 'cache_files_reused', 'cache_write_error_reported_by_set_up', 'source_ended_inside_run'],
         parts=[dict(harness="chk_C14", variant="seq", src="checks/chk_C14.cpp",
                     runs=dict(quick=6000, thorough=300000), wall_cap=dict(quick=110, thorough=2400)),
                dict(harness="chk_C14", variant="omp", src="checks/chk_C14.cpp",
